@@ -35,21 +35,28 @@ BIG = [11, 101, 2**31 - 1]
 MANIFEST = dict(
     level='exploration',
     technique='bounded-exhaustive enumeration of operand pairs/triples against schoolbook reference arithmetic',
-    text='All pairs of polynomials of degree <= 6 (8 thorough) over GF(2) in both representations, <= 4 (5) over GF(3), '
-         '<= 3 over GF(5) (thorough also degree 4 x degree <= 2), <= 2 over GF(7) plus degree <= 3 x degree <= 3 with '
-         'coefficients {0,1,6} (thorough: all pairs of degree <= 3), and all pairs of degree <= 2 (thorough <= 3 x <= 2) '
-         'over the coefficient alphabet {0,1,2,(p-1)/2,(p+1)/2,p-2,p-1} for p in {11,101,2^31-1}: +,-,* equal the '
-         'reference; divmod/floordiv/mod equal the reference quotient and remainder (a = q b + r, deg r < deg b asserted), '
-         'ZeroDivisionError for b = 0; gcd equals monic Euclid and, on smaller domains, the brute-force greatest common '
-         'divisor that every common divisor divides; gcdext satisfies s a + t b = gcd; invert equals the reduced inverse '
-         'or raises when gcd != 1; powmod(a, n, b) equals n-fold multiplication modulo b for every n in -4..17; all '
-         'triples of degree <= 2 (<= 3 for p=2, 3): associativity and distributivity; per polynomial: int/list/str '
-         'conversions, shifts, evaluation, monic, reverse, truncate, deriv, **, scalar/reflected/in-place operators, '
-         'operand immutability; for p=2 the integer and list representations give identical results.',
+    text='Quick (thorough): all ordered pairs of polynomials of degree <= 6 (8) over GF(2) in both representations, <= 4 (5) '
+         'over GF(3), <= 2 (3) over GF(5) and GF(7), quick also every a of degree <= 3 against every b of degree 3 with '
+         'coefficients in {0,1,p-1} (thorough GF(5): also degree 4 x degree <= 2, both orders); for p in {11,101,2^31-1} all pairs '
+         'of degree <= 2 over the coefficient alphabet {0,1,2,(p-1)/2,(p+1)/2,p-2,p-1} against {0,1,(p+1)/2,p-1} (thorough: full '
+         'alphabet on both sides, plus degree 3 against degree <= 2 and degree 3 against degree 3 on the 4-letter alphabet). '
+         'Per pair: +,-,* and the six comparisons equal the reference; divmod, //, % equal the reference quotient/remainder '
+         '(a = q b + r and deg r < deg b asserted on every reference call), ZeroDivisionError for b = 0; gcd equals monic '
+         'Euclid; gcdext returns that gcd with s a + t b = gcd; invert equals the reduced inverse or raises when gcd != 1; operands '
+         'are not mutated. gcd is also compared with the definition (brute-force divisor sets: the monic common divisor that every '
+         'common divisor divides) for all pairs of degree <= 5 (6) over GF(2), <= 3 over GF(3), <= 2 (3) over GF(5), <= 2 over '
+         'GF(7). powmod(a, n, b) equals n-fold multiplication modulo b (of the inverse for n < 0, error if none) for every n in '
+         '-4..17 on all pairs of degree <= 5 (6) / 3 / 2 over GF(2) / GF(3) / GF(5), GF(7) (quick GF(7): b over {0,1,6}) and on the '
+         'alphabets for the large primes. Associativity, distributivity and the value of (a b) c for all triples of degree <= 3 '
+         'over GF(2), <= 2 (3) over GF(3), <= 2 over GF(5), GF(7) (quick: c, for GF(7) also b, over {0,1,p-1}). Per polynomial: '
+         'int/list/tuple/str conversions, indexing, iteration, shifts, evaluation at every residue, monic, reverse, truncate, deriv, '
+         '**, a*a, scalar, reflected, coerced, class-method and augmented operators. For p = 2 the integer and the list '
+         'representation are both run on every case, compared with the reference and with each other.',
     ref='DESIGN 5/C23',
-    note='trusted: the schoolbook reference (self-checking against the laws); finite declared domain; large primes only '
-         'through the boundary alphabet; powmod/invert/mod/divmod with zero modulus only checked where an error is raised by '
-         'design (divmod, //, %, invert).')
+    note='trusted: the schoolbook reference mc/ref/polys.py (self-checking against the laws of the statement); finite declared '
+         'domain; large primes only through the boundary alphabet; the list representation at p = 2 is a driver-made subclass of '
+         'gfpx.Polynomial; a zero modulus is only exercised where an error is raised by design (divmod, //, %, invert). Deviations '
+         'that are merely "result congruent but not reduced" in powmod get their own keys (n=1, n=0 with constant modulus).')
 
 
 # -- harness helpers: deterministic examples, hang guard -----------------------------------
@@ -57,6 +64,12 @@ MANIFEST = dict(
 class CPart(Part):
     """Part that also remembers, per violation key, the smallest failing example (so that the reported
     example does not depend on the order in which worker processes finish)."""
+
+    def sample(self, s):
+        pool = self.notes.setdefault('sample_pool', [])
+        if len(pool) < 6:
+            pool.append(s)
+            self.samples.append(s)
 
     def violation(self, key, what, detail):
         super().violation(key, what, detail)
@@ -79,6 +92,8 @@ def coverage_extra(tier, seed, total):
     for v in total.violations:
         if v['key'] in best:
             _, v['what'], v['detail'] = best[v['key']]
+    pool = total.notes.pop('sample_pool', [])
+    total.samples = sorted(pool, key=lambda x: json.dumps(x, sort_keys=True, default=str))[:6]
     return {}
 
 
@@ -845,6 +860,7 @@ def replay(case):
     finally:
         watchdog(False)
     part.notes.pop('examples', None)
+    part.notes.pop('sample_pool', None)
     return part
 
 
